@@ -343,7 +343,15 @@ def fixed_scenarios():
         out.append(scenario.Scenario(seed=-21 - i, sdl=sdl, queries=queries + "\n", config=cfg,
                                      features=("fixed", "custom_operations") + (("local_clash",) if not asyn else ()),
                                      files=dict(base.files)))
-    return out + option_scenarios(out[5])
+    # string literals carrying the characters str.splitlines() treats as line ends although GraphQL does not
+    # (U+2028, U+2029, NEL, form feed, file/group/record separators): they are data and must reach the wire unchanged
+    seps = "first\u2028second\u2029third\x85fourth\x0cfifth\x1csixth\x1dseventh\x1eeighth"
+    sep_q = (f'query FindSep {{ find(text: "{seps}") }}\n'
+             f'query FindSepBlock($t: String = "d\u2028e") {{ find(text: $t) again: find(text: """blk\u2028 x\n  y\x85""") }}\n')
+    sep = [scenario.Scenario(seed=-105 - i, sdl="type Query { find(text: String): Int }\n", queries=sep_q,
+                             config={"convert_to_snake_case": True, "async_client": asyn, "opentelemetry_client": False},
+                             features=("fixed", "line_separators")) for i, asyn in enumerate((True, False))]
+    return out + option_scenarios(out[5]) + sep
 
 
 def _fixed_scenarios():
@@ -393,7 +401,7 @@ def tree_hash(files: dict) -> str:
 def norm_doc(q):
     if not isinstance(q, str):
         return q
-    return "\n".join(l.rstrip() for l in textwrap.dedent(q).strip().splitlines())
+    return "\n".join(l.rstrip(" \t") for l in textwrap.dedent(q).strip().split("\n"))   # "\n" only: U+2028, \x85 ... are data
 
 
 def ast_doc(q):
